@@ -131,6 +131,29 @@ func stmt(st ast.Stmt) *sk {
 	return nil
 }
 
+// isDoneRecv: `<-x.Done()` as a statement or the right-hand side of an assignment
+func isDoneRecv(st ast.Stmt) bool {
+	var e ast.Expr
+	switch x := st.(type) {
+	case *ast.ExprStmt:
+		e = x.X
+	case *ast.AssignStmt:
+		if len(x.Rhs) == 1 {
+			e = x.Rhs[0]
+		}
+	}
+	u, ok := e.(*ast.UnaryExpr)
+	if !ok {
+		return false
+	}
+	c, ok := u.X.(*ast.CallExpr)
+	if !ok {
+		return false
+	}
+	sel, ok := c.Fun.(*ast.SelectorExpr)
+	return ok && sel.Sel.Name == "Done"
+}
+
 func recvName(f *ast.FuncDecl) string {
 	if f.Recv == nil || len(f.Recv.List) == 0 {
 		return ""
@@ -267,6 +290,67 @@ func main() {
 			entries = append(entries, fmt.Sprintf("  (%q, %s)", name, s.lean()))
 		}
 	}
+	// ---- cancellation facts of the reader pipeline (C06) ----
+	readerFiles := []string{"read.go", "iterator.go", "iterator_chunk.go", "iterator_combined.go", "iterator_matrix.go", "iterator_sample.go"}
+	var selFacts, bare, closeFacts []string
+	for _, rel := range readerFiles {
+		f := parse(rel)
+		for _, d := range f.Decls {
+			fd, ok := d.(*ast.FuncDecl)
+			if !ok || fd.Body == nil {
+				continue
+			}
+			name := strings.TrimSuffix(filepath.Base(rel), ".go") + "." + recvName(fd) + "." + fd.Name.Name
+			k := 0
+			inSelect := map[ast.Node]bool{}
+			ast.Inspect(fd.Body, func(n ast.Node) bool {
+				switch x := n.(type) {
+				case *ast.SelectStmt:
+					arm := false
+					for _, c := range x.Body.List {
+						cc := c.(*ast.CommClause)
+						if cc.Comm == nil {
+							arm = true // default: never blocks
+							continue
+						}
+						inSelect[cc.Comm] = true
+						if isDoneRecv(cc.Comm) {
+							arm = true
+						}
+					}
+					selFacts = append(selFacts, fmt.Sprintf("  (\"%s#%d\", %v)", name, k, arm))
+					k++
+				case *ast.SendStmt:
+					if !inSelect[x] {
+						bare = append(bare, fmt.Sprintf("%q", name))
+					}
+				}
+				return true
+			})
+			if fd.Name.Name == "Close" && fd.Recv != nil && len(fd.Recv.List) == 1 && len(fd.Recv.List[0].Names) == 1 {
+				recv := fd.Recv.List[0].Names[0].Name
+				cancels := false
+				ast.Inspect(fd.Body, func(n ast.Node) bool {
+					if c, ok := n.(*ast.CallExpr); ok {
+						if sel, ok := c.Fun.(*ast.SelectorExpr); ok {
+							if id, ok := sel.X.(*ast.Ident); ok && id.Name == recv && (sel.Sel.Name == "closer" || sel.Sel.Name == "cancel") {
+								cancels = true
+							}
+						}
+					}
+					return true
+				})
+				closeFacts = append(closeFacts, fmt.Sprintf("  (%q, %v)", name, cancels))
+			}
+		}
+	}
+	b.WriteString("/-- every `select` of the reader pipeline: does it have a `<-ctx.Done()` arm (or a default)? -/\n")
+	b.WriteString("def selectFacts : List (String × Bool) := [\n" + strings.Join(selFacts, ",\n") + "\n]\n\n")
+	b.WriteString("/-- channel sends of the reader pipeline that are not an arm of a `select` -/\n")
+	b.WriteString("def bareSends : List String := [" + strings.Join(bare, ", ") + "]\n\n")
+	b.WriteString("/-- every `Close` method of the reader pipeline: does it call the iterator's own cancel function? -/\n")
+	b.WriteString("def closeFacts : List (String × Bool) := [\n" + strings.Join(closeFacts, ",\n") + "\n]\n\n")
+
 	b.WriteString("/-- lock / unlock / return skeleton of every method that takes a mutex -/\n")
 	b.WriteString("def lockSkeletons : List (String × Sk) := [\n" + strings.Join(entries, ",\n") + "\n]\n\nend Ftdc.Gen\n")
 	if *out == "" {
